@@ -27,7 +27,7 @@ cls('Node', M, {
     'name': 'Name', 'level': 'Name', 'free_capacity': 'Vec', 'parent': 'Opt[Bucket]',
     'children': 'List[Opt[Node]]', 'children_by_name': 'Dict[Name,Node]', 'traits': 'TraitSet',
     'labels': 'Set[Opt[Name]]', 'affinity_counters': 'Counter[Name]', 'valid_until': 'Real',
-    '_state': 'State', '_state_since': 'Real'})
+    '_state': 'State', '_state_since': 'Real'}, abstract=True)
 cls('Bucket', M, {'affinity_strategies': 'Dict[Name,SpreadStrategy]'})
 cls('Server', M, {'init_capacity': 'Vec', 'apps': 'Dict[Name,Application]', 'up_since': 'Real',
                   'presence_id': 'Opt[Name]'})
